@@ -256,7 +256,13 @@ pub fn generate(ctx: &mut Ctx) {
     // LAST: widths so small that 2^order / width overflows. On these the `nextafter`
     // loop of `segment_to_segment` cannot make progress; a helper thread that hangs
     // keeps spinning until the process exits, hence only a handful of them.
-    for i in 0..ctx.budget(3, 6) {
+    let hangs = ctx.budget(3, 6);
+    ctx.notes.push(format!(
+        "seg: intervals with 0 < max - min <= 2^(order-1024) (2^order / width = +inf) are generated {} times per run only, \
+         last: each one that hangs costs the 2 s watchdog and leaves a spinning thread",
+        hangs
+    ));
+    for i in 0..hangs {
         let (min, max, order) = gen_overflowing(ctx, i);
         ctx.count("seg_shape_overflowing_factor");
         let vs = vec![min, max];
@@ -752,8 +758,8 @@ fn run_cells(ctx: &mut Ctx, op: &str, toks: &[&str], dim: usize) -> Option<()> {
         flat.push(t.parse::<u64>().ok()?);
     }
     let tag = if dim == 2 { "hilbert2" } else { "hilbert3" };
-    let accepted = order >= 1 && order <= if dim == 2 { MAX2 } else { MAX3 };
-    let valid = accepted && flat.iter().all(|&c| c <= low_mask(order));
+    let max_order = if dim == 2 { MAX2 } else { MAX3 };
+    let valid = order >= 1 && order <= max_order && flat.iter().all(|&c| c <= low_mask(order));
     let res = catch(|| flat.chunks(dim).map(|c| encode(dim, c, order)).collect::<Vec<u64>>());
     let idx = match res {
         Caught::Ok(v) => v,
@@ -769,10 +775,8 @@ fn run_cells(ctx: &mut Ctx, op: &str, toks: &[&str], dim: usize) -> Option<()> {
     };
     let case = ctx.record(op.to_string(), join(&idx), valid && n > 0);
     if !valid {
-        if accepted {
-            // a coordinate outside the grid must be refused (debug assertions are on)
-            ctx.fail(case, &format!("{}-out-of-grid-accepted", tag), "no panic for a coordinate >= 2^order".into());
-        }
+        // cells outside the grid / orders outside the accepted range: the property says
+        // nothing about them (the model still has to predict the same output)
         return Some(());
     }
     ctx.count(&format!("e{}_order_{:02}", dim, order));
